@@ -214,6 +214,20 @@ def _nice_model(eng, phi_neg, inputs):
     return None
 
 
+def _clear_module_caches(tw):
+    """a path starts like a fresh process: memoising decorators (functools.lru_cache / cache) on repo functions are
+    cleared, so that state carried from one explored path into the next cannot make re-execution non-deterministic
+    (state carried from one CALL to the next inside a path is exactly what the history obligations look for)"""
+    for m in list(tw.modules.values()):
+        for v in list(vars(m).values()):
+            cc = getattr(v, 'cache_clear', None)
+            if callable(cc):
+                try:
+                    cc()
+                except Exception:
+                    pass
+
+
 def _has_real_atoms(x):
     if isinstance(x, symnp.ndarray):
         return _has_real_atoms(x.tolist())
@@ -258,6 +272,7 @@ def run_task(task):
 
         def run():
             symnp.random.reset()
+            _clear_module_caches(tw)
             return obl.fn(ctx)
 
         def end(res):
